@@ -19,6 +19,7 @@ from .alloc_common import C02_CLAUSES, decide, gen_cases
 CLAUSES = C02_CLAUSES
 SALT = 2
 WHAT = "C02"
+SUFFIX = {"quick": ["quick"], "thorough": ["thorough_a", "thorough_b"]}
 
 
 def run(ctx: Ctx, clauses=None, salt=None) -> int:
@@ -29,7 +30,8 @@ def run(ctx: Ctx, clauses=None, salt=None) -> int:
                 "embs": rec.get("embeddings", ALL), "predict": 0}
         decide(ctx, [case], clauses)
         return ctx.finish("model_checking", "replay of one recorded case")
-    tlc.model_check(ctx, "AllocMC", f"Alloc_mc_{ctx.tier}", vacuity_ignore=("Emit",))
+    for sfx in SUFFIX[ctx.tier]:
+        tlc.model_check(ctx, "AllocMC", f"Alloc_mc_{sfx}", vacuity_ignore=("Emit",))
     cases = gen_cases(ctx, ctx.tier, salt or SALT)
     decide(ctx, cases, clauses)
     ctx.extra["embeddings"] = ALL
